@@ -1,7 +1,7 @@
 #!/bin/bash
 # usage: tools/run_agent_mutants.sh C01 C02 ...   (runs /tmp/wt/<ID>/_out/m{1,2}.diff against the property's quick check)
 for P in "$@"; do for m in m1 m2; do
-  f=/tmp/wt/$P/_out/$m.diff; [ -f $f ] || continue
+  f=${WTBASE:-/tmp/wt}/$P/_out/$m.diff; [ -f $f ] || continue
   out=$(tools/run_mutant.sh $f $P quick | grep -v KNOWN-FINDING)
   nv=$(echo "$out" | grep -c '^VIOLATION')
   echo "$P $m: violations=$nv :: $(echo "$out" | tail -1 | cut -c1-110)"
